@@ -41,7 +41,7 @@ type caseSpec struct {
 }
 
 // kinds the builder executes as part of the state (a careless verifier would execute them too) ...
-var execKinds = []string{"fresh", "fresh", "fromPool", "dupChain", "badSig", "poolBadSig", "poolSwapPubkey", "txHeightIn", "group"}
+var execKinds = []string{"fresh", "fresh", "fromPool", "dupChain", "badSig", "poolBadSig", "poolSwapPubkey", "txHeightIn", "group", "rejSwapPubkey", "rejBadSig", "rejAgain"}
 
 // ... and kinds the executor itself refuses (inserted into the body after the state root was computed)
 var insertKinds = []string{"dupSame", "expiredHeight", "expiredTime", "wrongChain", "lowFee", "txHeightOut", "groupExpiredMember"}
@@ -103,6 +103,9 @@ type world struct {
 	cfg   *types.Chain33Config
 	chain []*types.Block // follower's best chain as the harness believes it (index = height-1)
 	pool  []*types.Transaction
+	// validly signed transactions that travelled in blocks the follower refused (so its verifier has seen them) and that
+	// are neither on the chain nor in the pool
+	rejected []*types.Transaction
 }
 
 func (w *world) tip() *types.Block { return w.chain[len(w.chain)-1] }
@@ -260,6 +263,39 @@ func (w *world) makeBlock(parent *types.Block, specs []txSpec, bits uint32) (*ty
 			tx.Signature.Pubkey = victim
 			single(tx, false)
 			invalid = true
+		case "rejSwapPubkey", "rejBadSig", "rejAgain":
+			// the body of a transaction the follower has already seen (and verified) inside a refused block, offered again:
+			// unchanged (legitimate), under another account's public key, or with corrupted signature bytes
+			if w.b != nil && s.Kind == "rejSwapPubkey" {
+				continue // a world with its own producer funds the genesis key only: no second account that could pay
+			}
+			var cands []*types.Transaction
+			on := map[string]bool{}
+			for _, tx := range onChain() {
+				on[string(tx.Hash())] = true
+			}
+			for _, tx := range w.rejected {
+				if !on[string(tx.Hash())] && tx.Expire == 0 {
+					cands = append(cands, tx)
+				}
+			}
+			if len(cands) == 0 {
+				continue
+			}
+			tx := cloneTx(cands[s.Ref%len(cands)])
+			switch s.Kind {
+			case "rejSwapPubkey":
+				victim := keys[0].PubKey().Bytes()
+				if bytes.Equal(tx.Signature.Pubkey, victim) {
+					victim = keys[3].PubKey().Bytes()
+				}
+				tx.Signature.Pubkey = victim
+				invalid = true
+			case "rejBadSig":
+				tx.Signature.Signature[len(tx.Signature.Signature)-2] ^= 0x10
+				invalid = true
+			}
+			single(tx, false)
 		case "txHeightIn":
 			tx := w.freshTx(s.To)
 			// valid while txHeight-low <= height <= txHeight+high
@@ -405,6 +441,15 @@ func (w *world) makeBlock(parent *types.Block, specs []txSpec, bits uint32) (*ty
 	return blk, invalid, kinds
 }
 
+// noteRefused remembers the validly signed single transactions of a block the follower refused.
+func (w *world) noteRefused(b *types.Block) {
+	for _, tx := range b.Txs {
+		if tx.GroupCount == 0 && tx.Signature != nil && tx.CheckSign(b.Height) && !everPooled[string(tx.Hash())] {
+			w.rejected = append(w.rejected, cloneTx(tx))
+		}
+	}
+}
+
 // scan is the oracle: every transaction of every block of the follower's best chain.
 func (w *world) scan(t lib.TB, test string, c interface{}, upto int) (toleratedKnown bool) {
 	h, _ := w.f.Tip()
@@ -515,6 +560,7 @@ func runCase(t lib.TB, test string, c caseSpec) outcome {
 			o.adversarial++
 			if !accepted {
 				o.rejectedOK++
+				w.noteRefused(b)
 			}
 		} else if !accepted {
 			lib.Violation(t, prop, test, c, "step %d: an honest valid block %v was not accepted as the new tip (err=%v)", si, kinds, err)
@@ -665,7 +711,7 @@ func genWinCase(t *rapid.T) winCase {
 		var specs []txSpec
 		k := rapid.IntRange(1, 3).Draw(t, "ntx")
 		for j := 0; j < k; j++ {
-			kind := rapid.SampledFrom([]string{"fresh", "txHeightIn", "txHeightIn", "replayTxHeight", "replayTxHeight", "txHeightOut", "dupChain", "group", "dupSame", "groupExpiredMember"}).Draw(t, "kind")
+			kind := rapid.SampledFrom([]string{"fresh", "txHeightIn", "txHeightIn", "replayTxHeight", "replayTxHeight", "txHeightOut", "dupChain", "group", "dupSame", "groupExpiredMember", "rejSwapPubkey", "rejBadSig"}).Draw(t, "kind")
 			specs = append(specs, txSpec{Kind: kind, Ref: rapid.IntRange(0, 999).Draw(t, "ref"), To: rapid.IntRange(0, 5).Draw(t, "to")})
 		}
 		c.Blocks = append(c.Blocks, specs)
@@ -731,6 +777,7 @@ func runWinCase(t lib.TB, test string, c winCase) (replayInWindow, replayAtEdge,
 			adversarial++
 			if !accepted {
 				rejected++
+				w.noteRefused(b)
 			}
 		} else if !accepted {
 			lib.Violation(t, prop, test, c, "block %d: an honest valid block %v was not accepted as the new tip (err=%v)", bi, kinds, err)
